@@ -13,6 +13,11 @@ fn probes<T: Tier>() -> Vec<[T; 3]> {
     v.push([T::one(), T::zero(), T::zero()]);
     v.push([T::zero(), T::one(), T::zero()]);
     v.push([T::zero(), T::zero(), T::one()]);
+    // long vectors (far points): with the small rotations of the ladders, the second factor of a "small angle and
+    // large vector" short cut
+    for (i, k) in [(0usize, 11i64), (1, 16), (2, 22)] {
+        v.push(vec_from_r::<T, 3>(&alphabet::generic(3, i).iter().map(|r| (r.0 << k, r.1)).collect::<Vec<_>>()));
+    }
     v
 }
 
